@@ -15,6 +15,8 @@ import GojaModel.Base.Proto
 import GojaModel.C06.Model
 import GojaModel.C06.Spec
 import GojaModel.C06.Builtins
+import GojaModel.C06.Builtins2
+import GojaModel.C06.Builtins3
 namespace GojaModel.C06.Driver
 open GojaModel.C06 GojaModel.Proto
 
@@ -305,6 +307,58 @@ def stepBuiltin (s : St) (d : Nat) (op : String) (args : List String) : St × St
           | some r, none => (st1.set d r, tag r ++ " !SPEC")
           | none, sp => (st1.set d Builtins.emptyStr, "undef" ++ (if sp.isNone then "" else " !SPEC"))
         | _, _, _ => bad
+      | _ => bad
+    else if op == "splitjoinlim" then
+      -- bi d splitjoinlim a sep j lim
+      match args with
+      | [a, p, j, lim] =>
+        match reg a, reg p, reg j, nat? lim with
+        | some (ka, x), some (kp, y), some (kj, z), some lim =>
+          let ps := Builtins.splitLimM x y (some lim)
+          let r := Builtins.joinM ps z
+          let st1 := if lim == 0 then s else [(ka, x), (kp, y)].foldl touchIn s
+          let st2 := if ps.length ≥ 2 then touchIn st1 (kj, (st1.get kj).getD z) else st1
+          (st2.set d r, answer r (Spec.join ((Spec.split (units x) (units y)).take lim) (units z)))
+        | _, _, _, _ => bad
+      | _ => bad
+    else if op == "splitpiecelim" then
+      match args with
+      | [a, p, k, lim] =>
+        match reg a, reg p, nat? k, nat? lim with
+        | some (ka, x), some (kp, y), some k, some lim =>
+          let ps := Builtins.splitLimM x y (some lim)
+          let st1 := if lim == 0 then s else [(ka, x), (kp, y)].foldl touchIn s
+          match ps[k]?, ((Spec.split (units x) (units y)).take lim)[k]? with
+          | some r, some u => (st1.set d r, answer r u)
+          | some r, none => (st1.set d r, tag r ++ " !SPEC")
+          | none, sp => (st1.set d Builtins.emptyStr, "undef" ++ (if sp.isNone then "" else " !SPEC"))
+        | _, _, _, _ => bad
+      | _ => bad
+    else if op == "trim" || op == "trimStart" || op == "trimEnd" then
+      match args with
+      | [a] =>
+        match reg a with
+        | some (ka, x) =>
+          let l := op != "trimEnd"
+          let rt := op != "trimStart"
+          let r := Builtins.trimM x l rt
+          let sp := if op == "trim" then Spec.trim (units x) else if l then Spec.trimStart (units x) else Spec.trimEnd (units x)
+          ((touchIn s (ka, x)).set d r, answer r sp)
+        | none => bad
+      | _ => bad
+    else if op == "raw" then
+      -- bi d raw <nseg> seg… sub…
+      match args with
+      | n :: rest =>
+        match nat? n, getAll s rest with
+        | some n, some kvs =>
+          if n == 0 || kvs.length < n then bad else
+          let segs := kvs.take n
+          let subs := kvs.drop n
+          let r := Builtins.rawM (segs.map (·.2)) (subs.map (·.2))
+          let s' := (segs ++ subs.take (n - 1)).foldl touchIn s
+          (s'.set d r, answer r (Spec.rawS (segs.map (fun kv => units kv.2)) (subs.map (fun kv => units kv.2))))
+        | _, _ => bad
       | _ => bad
     else if op == "concat" then
       match getAll s args with
